@@ -174,6 +174,16 @@ VERUS_UNITS = {
             ('forall|e: Entity| #[trigger] old(world).pending().contains(e) ==> !final(world).alive().contains(e),', 'forall|e: Entity| #[trigger] old(world).alive().contains(e) ==> !final(world).alive().contains(e),', 'garbage_collect_entities'),
         ],
     },
+    'despawn_reg': {
+        'template': 'despawn_reg.rs.tpl',
+        'owners': [(r'register_despawn_(reactor|scope)$', ['C07', 'C18', 'C01'])],
+        'negctl': [
+            # R3 must be a real obligation: if an existing tracker could be replaced the precondition of insert is violated
+            ('&& (tr0.dom().contains(entity) ==> tr1 =~= tr0)', '&& (tr0.dom().contains(entity) ==> tr1 =~= tr0.remove(entity))', 'register_despawn_scope'),
+            # R1: nothing for a dead entity
+            ('(!alive0.contains(entity) ==> (tr1 =~= tr0 && c1.despawn_tab() =~= c0.despawn_tab()))', '(!alive0.contains(entity) ==> (tr1 =~= tr0 && tab_of(c1.despawn_tab(), entity) == tab_of(c0.despawn_tab(), entity).push(handle)))', 'register_despawn_scope'),
+        ],
+    },
     'dispatch': {
         'template': 'dispatch.rs.tpl',
         'owners': [(r'schedule_entity_reaction_impl$', ['C01', 'C14']), (r'ReactCache::schedule_(insertion|mutation)_reaction$', ['C01', 'C14'])],
@@ -259,7 +269,7 @@ PROPS = {
         note=ENVNOTE + '; the assumed effects of the callees in unit `revoke` are uninterpreted functions - their meaning is fixed by the Kani contracts, the correspondence is by review',
         explanation='token walk and the five type-wide revoke_* proved unbounded (Verus); per-entity removal and a compiled-code restatement bounded (Kani); history lemma L3'),
     'C07': dict(category='other', design_ref='DESIGN.md 5/C07 + 9.5',
-        text='Handle-balance contracts on the real code: ReactorMode::prepare gives a persistent reactor a plain handle (never ref-counted, hence never collected) and every other mode a signal for exactly the reactor\'s entity (Verus, verbatim); each of the 11 trigger types registers exactly ONE clone of the handle per trigger into the table its reactor_type() names, none for a despawn trigger on a dead entity, and register_entity_reactor stores none when the entity is gone (Verus, verbatim, generic); register_* store exactly the handle they are given (Verus, unbounded); revoke_* drop exactly one entry of the revoked reactor and no neighbour (Verus, any length; Kani restatement L<=4), EntityReactors::remove exactly the (type, id) matches (Kani, L<=4); register_reactors turns the mode into ONE handle and registers the whole bundle with it (Verus); DespawnAccessTracker holds the in-flight handle from start to end and end drops it (Verus); the signal itself is an exact reference count: the reactor\'s id is sent to the despawner exactly once, at the drop of the last clone (Kani on real std::sync::Arc + the assumed channel, 1..3 clones; lemma L4). One collection (Verus, garbage_collect_entities verbatim modulo extraction rule 15; unit gc): the request channel is EMPTY on return - the collector never stops early - and every entity whose request was pending on entry is gone on return, so a reactor whose last handle has disappeared is despawned by the first collection that follows; requests for entities that are already gone are skipped. Level other: schedule_despawn_reactions and WHEN the runner collects are NOT discharged (CBMC cost / whole-tree histories); that despawning the entity drops its system state and captures is Bevy\'s component drop (assumed).',
+        text='Handle-balance contracts on the real code: ReactorMode::prepare gives a persistent reactor a plain handle (never ref-counted, hence never collected) and every other mode a signal for exactly the reactor\'s entity (Verus, verbatim); each of the 11 trigger types registers exactly ONE clone of the handle per trigger into the table its reactor_type() names, none for a despawn trigger on a dead entity, and register_entity_reactor stores none when the entity is gone (Verus, verbatim, generic); register_* store exactly the handle they are given (Verus, unbounded); revoke_* drop exactly one entry of the revoked reactor and no neighbour (Verus, any length; Kani restatement L<=4), EntityReactors::remove exactly the (type, id) matches (Kani, L<=4); register_reactors turns the mode into ONE handle and registers the whole bundle with it (Verus); the register_despawn_reactor system (closure body verbatim, lifted by extraction rule 16) stores the handle iff the target is still alive when the command is applied, never replaces an existing DespawnTracker (which would report a despawn that did not happen) and wires a new tracker to this cache\'s despawn channel (Verus); DespawnAccessTracker holds the in-flight handle from start to end and end drops it (Verus); the signal itself is an exact reference count: the reactor\'s id is sent to the despawner exactly once, at the drop of the last clone (Kani on real std::sync::Arc + the assumed channel, 1..3 clones; lemma L4). One collection (Verus, garbage_collect_entities verbatim modulo extraction rule 15; unit gc): the request channel is EMPTY on return - the collector never stops early - and every entity whose request was pending on entry is gone on return, so a reactor whose last handle has disappeared is despawned by the first collection that follows; requests for entities that are already gone are skipped. Level other: schedule_despawn_reactions and WHEN the runner collects are NOT discharged (CBMC cost / whole-tree histories); that despawning the entity drops its system state and captures is Bevy\'s component drop (assumed).',
         note=ENVNOTE + '; Arc/channel: sequential semantics; in unit gc the channel receiver and World::resource are given exclusive (&mut) access in place of crossbeam\'s interior mutability',
         explanation='one clone per effective registration, one drop per revocation, in-flight handle dropped at end, exact ref-count of the signal (Kani, bounded), one collection drains every pending request (Verus, unbounded); collection points in the runner not covered'),
     'C10': dict(category='other', design_ref='DESIGN.md 5/C10 + 9.5',
@@ -283,7 +293,7 @@ PROPS = {
         note=ENVNOTE + '; component/resource instantiated at a u32 newtype',
         explanation='accessor clauses complete@shape (Kani, loop-free, full value domain); dispatch of the trigger bounded (Kani)'),
     'C18': dict(category='other', design_ref='DESIGN.md 5/C18',
-        text='Function-level robustness contracts: Verus (verbatim, unbounded): revoke_reactor skips - does not abort on - token elements whose entity is gone and still processes all later elements; try_cleanup_data_entity is a no-op on a dead entity; cleanup_on_abort runs setup+cleanup whether or not the target exists; syscommand_runner takes the abort path - one cleanup_on_abort, no system run - exactly when the target entity is gone, has no storage, or its callback is out at the root; a postponed command is handed back to the runner whatever happened to its target in between (replay closure verbatim, lifted by extraction rule 14), so a target that died meanwhile reaches that abort path instead of being dropped silently. Kani (every reachable panic is a failed obligation): try_cleanup_data_entity on dead / counter-less entities, schedule_entity_event_reaction for a target without reactor list, tracker start without entry, revoke_* with absent key/id. Not covered: whole-tree histories (C02).',
+        text='Function-level robustness contracts: Verus (verbatim, unbounded): revoke_reactor skips - does not abort on - token elements whose entity is gone and still processes all later elements; try_cleanup_data_entity is a no-op on a dead entity; cleanup_on_abort runs setup+cleanup whether or not the target exists; syscommand_runner takes the abort path - one cleanup_on_abort, no system run - exactly when the target entity is gone, has no storage, or its callback is out at the root; a postponed command is handed back to the runner whatever happened to its target in between (replay closure verbatim, lifted by extraction rule 14), so a target that died meanwhile reaches that abort path instead of being dropped silently. the register_despawn_reactor system does nothing at all for a target that died before the command was applied (Verus, unit despawn_reg). Kani (every reachable panic is a failed obligation): try_cleanup_data_entity on dead / counter-less entities, schedule_entity_event_reaction for a target without reactor list, tracker start without entry, revoke_* with absent key/id. Not covered: whole-tree histories (C02).',
         note=ENVNOTE,
         explanation='dead-target paths of revoke walk, payload cleanup and abort proved by Verus; no-panic/no-effect harnesses by Kani; runner not covered'),
 }
